@@ -114,6 +114,9 @@ static void __attribute__((noinline)) observe(const char* op, long long a, long 
   for (int i = 1; i <= maxid; i++) {
     if (tab[i].state == 0) continue;
     int m = mem(gc, P(i)) ? 1 : 0;
+#ifndef NO_WHITEBOX
+    if (tab[i].state == 1 && m && !seen[i]) m = 0;      /* the address of a reclaimed object, handed out again */
+#endif
     if (tab[i].state == 1 && m) memreg[nmr++] = i;
     if (tab[i].state == 2 && tab[i].kind == K_ANODE && m) deadmem++;
 #ifdef NO_WHITEBOX
@@ -187,6 +190,25 @@ static void __attribute__((noinline)) do_collect(int churn) {
     if (((struct GC*)gc)->nitems + 2 < ((struct GC*)gc)->mitems / 2 && round > 8) break;
 #endif
   }
+}
+
+/* long chains: n objects linked head -> ... -> tail, the head in a stack slot; only counts are logged */
+static uintptr_t* chainp; static long chainn;
+static void __attribute__((noinline)) chain_build(long n, int kind, volatile var* slot) {
+  chainp = realloc(chainp, (size_t)n * sizeof *chainp); chainn = n;
+  var prev = NULL;
+  for (long i = 0; i < n; i++) {
+    var o = kind == K_REF ? alloc(Ref) : (var)new(Node, $I(0));
+    chainp[i] = (uintptr_t)o ^ PMASK;
+    if (i == 0) *slot = o;
+    else if (kind == K_REF) ref(prev, o); else ((struct Node*)prev)->link[0] = o;
+    prev = o;
+  }
+}
+static long __attribute__((noinline)) chain_count(void) {
+  var gc = current(GC); long k = 0;
+  for (long i = 0; i < chainn; i++) if (mem(gc, (var)(chainp[i] ^ PMASK))) k++;
+  return k;
 }
 
 static int kind_of(const char* s) { for (int k = 1; k <= K_TREEK; k++) if (!strcmp(s, KN[k])) return k; return 0; }
@@ -296,6 +318,20 @@ int main(int argc, char** argv) {
       scrub();
       HC_TRY(do_collect(hc_is(1, "churn")));
       observe("collect", hc_is(1, "churn") ? 1 : 0, 0, 0, hc_exc);
+    } else if (hc_is(0, "chain")) {            /* chain <n> <Ref|Node> : build, collect while rooted, drop, collect */
+      long n = (long)hc_int(1); int kind = kind_of(hc_w[2]);
+      stop(current(GC));                          /* build without intermediate collections ... */
+      start(current(GC));
+      chain_build(n, kind, &roots[31]);
+      scrub();
+      HC_TRY(do_collect(0));
+      long kept = chain_count();
+      ev_begin("chain"); ev_int("n", n); ev_int("kept", kept); ev_int("rooted", 1); ev_str("exc", hc_exc); ev_int("line", cur_line); ev_end(); ev_flush();
+      roots[31] = NULL;
+      scrub();
+      HC_TRY(do_collect(0));
+      kept = chain_count();
+      ev_begin("chain"); ev_int("n", n); ev_int("kept", kept); ev_int("rooted", 0); ev_str("exc", hc_exc); ev_int("line", cur_line); ev_end();
     } else if (hc_is(0, "stop")) {
       stop(current(GC)); observe("stop", 0, 0, 0, "");
     } else if (hc_is(0, "start")) {
